@@ -3,6 +3,7 @@ package main
 import (
 	"context"
 	"fmt"
+	"runtime"
 	"sync"
 	"sync/atomic"
 	"time"
@@ -406,5 +407,102 @@ func (g *gen) freeResource(idx int) error {
 	}
 	fc.finish(g, kind, base, []string{fmt.Sprintf("free-subs-%d", nSub), fmt.Sprintf("free-backpressure-%d", nbp)},
 		map[string]any{"writers": nW})
+	return nil
+}
+
+// gcRace: a Send that has to garbage-collect a large set of cancelled, not yet collected
+// listeners while other goroutines call Listen.  The joiners are started by the yield point in
+// front of Bus.collect (they spin on a flag the hook sets, then start after staggered delays), so
+// their registrations land while collect runs.  A later Send must reach every joiner: they are
+// registered before it starts and stay live until it has returned.
+func (g *gen) gcRace(idx int) error {
+	r := g.r
+	base := libCount(dump())
+	fc := &freeCase{}
+	bus := &minibus.Bus{}
+	dead := r.Range(200, 900)
+	joiners := r.Range(2, 6)
+	step := r.Range(50, 600)
+
+	deadCtx, deadCancel := context.WithCancel(context.Background())
+	deadCancel()
+	for i := 0; i < dead; i++ {
+		bus.Listen(deadCtx) // registered, not alive: the next Send collects
+	}
+	if _, err := settle(); err != nil { // the watchers of the dead listeners have ended
+		return err
+	}
+
+	var flag atomic.Int32
+	gs := &gates{byGID: map[int64]*gate{}}
+	gs.onPoint = func(point string) {
+		if point == "bus.send.collect" {
+			flag.Store(1)
+		}
+	}
+	verifhook.Set(gs.hook)
+	defer verifhook.Set(nil)
+
+	var jwg sync.WaitGroup
+	for j := 0; j < joiners; j++ {
+		j := j
+		s := &freeSub{stopAt: -1, done: make(chan struct{})}
+		s.ctx, s.cancel = context.WithCancel(context.Background())
+		s.desc = "joiner"
+		fc.smu.Lock()
+		fc.subs = append(fc.subs, s)
+		fc.smu.Unlock()
+		jwg.Add(1)
+		go func() {
+			defer jwg.Done()
+			for i := 0; flag.Load() == 0 && i < 50_000_000; i++ {
+			}
+			for i := 0; i < j*step; i++ {
+				_ = flag.Load()
+			}
+			ch := bus.Listen(s.ctx)
+			s.mu.Lock()
+			s.reg = fc.tick.Add(1)
+			s.mu.Unlock()
+			s.recv = func() (event, bool, bool) {
+				v, ok := <-ch
+				if !ok {
+					return event{}, false, false
+				}
+				return v.(event), true, true
+			}
+			fc.consume(s, 0)
+		}()
+	}
+	// the Send that collects (it meets only dead listeners, so it never blocks)
+	fc.call(0, 1, func() bool { return bus.Send(context.Background(), event{0, 1}) })
+	flag.Store(1) // in case nothing had to be collected
+	// all joiners registered
+	deadline := time.Now().Add(closeBound)
+	for time.Now().Before(deadline) {
+		n := 0
+		for _, s := range fc.snapshotSubs() {
+			s.mu.Lock()
+			if s.reg != 0 {
+				n++
+			}
+			s.mu.Unlock()
+		}
+		if n == joiners {
+			break
+		}
+		runtime.Gosched()
+	}
+	// the later Send: every joiner is registered and live
+	sent := make(chan struct{})
+	go func() {
+		fc.call(0, 2, func() bool { return bus.Send(context.Background(), event{0, 2}) })
+		close(sent)
+	}()
+	select {
+	case <-sent:
+	case <-time.After(closeBound):
+	}
+	fc.finish(g, "gc-race", base, []string{"gc-race"}, map[string]any{"dead_listeners": dead, "joiners": joiners})
 	return nil
 }
